@@ -49,7 +49,7 @@ fn c16_alpha_neg_zero() -> (bool, String) {
 }
 
 /// bounded search on the part that is PROVED: float-free query values (stored values may be floats), all sequences of up to 4
-/// operations over insert / create_index / drop_index, a filter with every query value after every step.  Expected: nothing found.
+/// (thorough tier: 6) operations over insert / create_index / drop_index, a filter with every query value after every step.  Expected: nothing found.
 fn c16_alpha_float_free_search() -> (bool, String) {
     let vals = || -> Vec<FactValue> {
         vec![
@@ -65,6 +65,7 @@ fn c16_alpha_float_free_search() -> (bool, String) {
     let queries: Vec<FactValue> = vals().into_iter().filter(|v| !matches!(v, FactValue::Float(_))).collect();
     // op codes: 0..7 insert vals[k]; 7 insert a fact without the field; 8 create_index; 9 drop_index
     let nops = 10usize;
+    let max_len = crate::bound(4, 6);
     let mut tried = 0u64;
     let mut stack: Vec<Vec<usize>> = vec![vec![]];
     while let Some(s) = stack.pop() {
@@ -93,7 +94,7 @@ fn c16_alpha_float_free_search() -> (bool, String) {
                 }
             }
         }
-        if s.len() < 4 {
+        if s.len() < max_len {
             for op in 0..nops {
                 let mut n = s.clone();
                 n.push(op);
@@ -101,7 +102,7 @@ fn c16_alpha_float_free_search() -> (bool, String) {
             }
         }
     }
-    (false, format!("{} filters on float-free query values agree with the linear scan", tried))
+    (false, format!("{} filters on float-free query values agree with the linear scan (after every step of every sequence of <= {} insert / create_index / drop_index)", tried, max_len))
 }
 
 fn rule(name: &str, fields: &[&str], enabled: bool) -> Rule {
@@ -112,13 +113,14 @@ fn rule(name: &str, fields: &[&str], enabled: bool) -> Rule {
     r
 }
 
-/// bounded search: all sequences of up to 5 add_rule / remove_rule over 2 rule names x 3 shapes; after every step every goal
+/// bounded search: all sequences of up to 5 (thorough tier: 7) add_rule / remove_rule over 2 rule names x 3 shapes; after every step every goal
 /// `F == true` must propose every rule added while enabled with Set{F} and not removed since.  Expected: nothing found.
 fn c16_conclusion_index_search() -> (bool, String) {
     let fields = ["User.IsVIP", "Order.Status"];
     let shapes: Vec<(Vec<&str>, bool)> = vec![(vec!["User.IsVIP"], true), (vec!["User.IsVIP", "Order.Status"], true), (vec!["Order.Status"], false)];
     let names = ["A", "B"];
     // op: 0..6 add (name = op / 3, shape = op % 3); 6,7 remove name
+    let max_len = crate::bound(5, 7);
     let mut tried = 0u64;
     let mut stack: Vec<Vec<usize>> = vec![vec![]];
     while let Some(s) = stack.pop() {
@@ -151,7 +153,7 @@ fn c16_conclusion_index_search() -> (bool, String) {
                 }
             }
         }
-        if s.len() < 5 {
+        if s.len() < max_len {
             for op in 0..8 {
                 let mut n = s.clone();
                 n.push(op);
@@ -159,7 +161,7 @@ fn c16_conclusion_index_search() -> (bool, String) {
             }
         }
     }
-    (false, format!("{} lookups propose every live rule", tried))
+    (false, format!("{} lookups propose every live rule (after every step of every sequence of <= {} add_rule / remove_rule over 2 names x 3 shapes)", tried, max_len))
 }
 
 pub fn witnesses() -> Vec<crate::W> {
